@@ -150,14 +150,15 @@ func c08Cell(fn toFn, src ap.Item, rep *Report, idx int) (obs string) {
 		sv = sv.Elem()
 	}
 	dv := rv.Elem()
-	fail := func(what, observed string) {
-		rep.Violate(Violation{Op: srcDesc, Input: CoqItem(src), Expected: what, Observed: observed, Index: idx,
-			Class: c08Class(sv.Type().Name(), dv.Type().Name())})
+	failC := func(what, observed, class string) {
+		rep.Violate(Violation{Op: srcDesc, Input: CoqItem(src), Expected: what, Observed: observed, Index: idx, Class: class})
 	}
+	fail := func(what, observed string) { failC(what, observed, "") }
 	// the view must not be larger than the value it views
 	if dv.Type().Size() > sv.Type().Size() {
-		fail("the view exposes no memory outside the original value, or the conversion is refused",
-			fmt.Sprintf("view type %s is %d bytes, the value it points into is a %s of %d bytes", dv.Type().Name(), dv.Type().Size(), sv.Type().Name(), sv.Type().Size()))
+		// (the class of the open finding belongs to this measurement only, not to any other failure on the same pair)
+		failC("the view exposes no memory outside the original value, or the conversion is refused",
+			fmt.Sprintf("view type %s is %d bytes, the value it points into is a %s of %d bytes", dv.Type().Name(), dv.Type().Size(), sv.Type().Name(), sv.Type().Size()), c08Class(sv.Type().Name(), dv.Type().Name()))
 		return "CRBroken"
 	}
 	// every field of the view type must be a field of the source (same name up to Items<->OrderedItems) holding the same value
